@@ -453,11 +453,58 @@ def ax_redirect_ptns(tier):
     return bad, total
 
 
+def ax_arith_ptns(tier):
+    """C19: the three patterns of tools::is_arithmetic -- a digit, an operator (+ - * / ^ and nothing else: a dot or a comma is not one), and the alphabet of the whole line"""
+    total = 0
+    lits = fn_literals('src/tools.rs', 'is_arithmetic')
+    if len(lits) != 3:
+        raise LostAnchor('axcheck arith_ptns: the three patterns of is_arithmetic were not found (%d)' % len(lits))
+    dig, op, whole = lits
+    bad = _required('is_arithmetic: a digit', dig, [(t, True) for t in ('1', 'a1', '1+2', ' 9 ')] + [(t, False) for t in ('', '+', 'a', '(.)')])
+    total += 8
+    if not bad:
+        bad = _required('is_arithmetic: an operator', op, [(t, True) for t in ('1+2', '1-2', '1*2', '1/2', '1^2', '+')] + [(t, False) for t in ('1.5', '.', ',', '(2)', '1 2', '10.0.0.1', '')])
+        total += 13
+    if not bad:
+        yes = ['1+2', ' 1 + 2 ', '(1.5+1)*2', '2^3', '7/2', '1 - (2 * 3)', '((1))+((2))', '2.0 ^ 0.5', '1+2 ']
+        no = ['a+1', '1+a', 'echo 1+2', '1+2;', '1+2|3', '$1+2', '1+2 #c', '']
+        bad = _required('is_arithmetic: the alphabet of the line', whole, [(t, True) for t in yes] + [(t, False) for t in no])
+        total += len(yes) + len(no)
+    return bad, total
+
+
+def ax_fn_head(tier):
+    """C15: both header spellings of a function definition, names with letters, digits, `-` and `_`, give the name; the closing line is a lone `}`"""
+    head = _one_literal('src/scripting.rs', 'run_script', ['function'])
+    cases = []
+    for n_ in ('f', 'foo', 'a-b', 'a_b', '_x', 'f1', 'do-it_2'):
+        for form in ('function %s {', 'function %s() {', 'function %s () {', 'function %s(){', 'function %s  {'):
+            cases.append((form % n_, (n_,)))
+    bad = _required('function header', head, cases + [('functionf {', False), ('function {', False), ('function f', False), ('echo function f {', False)])
+    total = len(cases) + 4
+    if not bad:
+        tail = [l for l in fn_literals('src/scripting.rs', 'run_script') if l.startswith('^') and '}' in l and 'function' not in l and '(' not in l]
+        if len(tail) != 1:
+            raise LostAnchor('axcheck fn_head: the pattern of the closing line was not found')
+        bad = _required('function closing line', tail[0], [('}', True), ('} x', False), ('x }', False), ('{}', False), ('', False)])
+        total += 5
+    return bad, total
+
+
+def ax_env_word(tier):
+    """C09: a NAME=VALUE word (identifier name, any value, the empty one included) is recognised as an assignment by tools::is_env"""
+    lit = _one_literal('src/tools.rs', 'is_env', ['=', '^['])
+    cases = [(n_ + '=' + v, True) for n_ in NAMES_ID for v in VALUES if '\n' not in v]
+    bad = _required('is_env', lit, cases + [('=v', False), ('1a=v', False), ('a b=v', False), ('abc', False)])
+    return bad, len(cases) + 4
+
+
 AXIOMS = {
     'C01': [('re_gt', ax_re_gt), ('glob_gate', ax_glob_gate)], 'C13': [('re_gt', ax_re_gt), ('assign_ptn', ax_assign_ptn)], 'C04': [('re_gt', ax_re_gt), ('redirect_ptns', ax_redirect_ptns)],
-    'C09': [('assign_ptn', ax_assign_ptn), ('name_value', ax_name_value)], 'C12': [('glob_gate', ax_glob_gate), ('brace_gates', ax_brace_gates)],
+    'C09': [('assign_ptn', ax_assign_ptn), ('name_value', ax_name_value), ('env_word', ax_env_word)], 'C12': [('glob_gate', ax_glob_gate), ('brace_gates', ax_brace_gates)],
     'C17': [('name_value', ax_name_value)], 'C11': [('ref_gates', ax_ref_gates)],
-    'C15': [('args_ref', ax_args_ref), ('ref_gates', ax_ref_gates)],
+    'C15': [('args_ref', ax_args_ref), ('ref_gates', ax_ref_gates), ('fn_head', ax_fn_head)],
+    'C19': [('arith_ptns', ax_arith_ptns)],
     'C10': [('env_ref', ax_env_ref), ('ref_gates', ax_ref_gates)],
     # (the substitution passes no longer use regexes: nothing to validate for C11)
     'C05': [('args_ref', ax_args_ref), ('env_ref', ax_env_ref)],
